@@ -728,3 +728,27 @@ Proof.
   - cbn [obind]. rewrite div32_some by lia. cbn [obind]. unfold add32.
     rewrite chk_s32_some by (unfold i32; lia). discriminate.
 Qed.
+
+(* ---- CFF INDEX lookups and subroutine numbers ---- *)
+Lemma no_trap_index_offset_pos index count off_size :
+  0 <= index -> 0 <= count <= 4294967295 -> 0 <= off_size <= 255 -> index_offset_pos index count off_size <> None.
+Proof.
+  intros Hi Hc Ho. unfold index_offset_pos. destruct (count <? index) eqn:E; [discriminate|].
+  rewrite chk_u64_some by nia. cbn [obind]. discriminate.
+Qed.
+Lemma no_trap_index_get index count off_size :
+  0 <= index <= 18446744073709551615 -> 0 <= count <= 4294967295 -> 0 <= off_size <= 255 ->
+  index_get_positions index count off_size <> None.
+Proof.
+  intros Hi Hc Ho. unfold index_get_positions.
+  unfold index_offset_pos at 1. destruct (count <? index) eqn:E; [discriminate|].
+  rewrite chk_u64_some by nia. cbn [obind].
+  unfold addu64. rewrite chk_u64_some by lia. cbn [obind].
+  pose proof (no_trap_index_offset_pos (index + 1) count off_size ltac:(lia) Hc Ho) as H.
+  destruct (index_offset_pos (index + 1) count off_size) as [[p|]|]; [discriminate|discriminate|contradiction].
+Qed.
+Lemma no_trap_subr_biased_index v bias : i16 v -> 0 <= bias <= 32768 -> subr_biased_index v bias <> None.
+Proof.
+  intros Hv Hb. unfold subr_biased_index, add32, i16 in *. rewrite chk_s32_some by (unfold i32; lia).
+  cbn [obind]. discriminate.
+Qed.
